@@ -31,7 +31,10 @@ class EcoreUtils(object):
         elif _type.__class__ is EDataType and obj.__class__ is _type.eType:
             return True
         elif _isinstance(obj, EProxy) and not obj.resolved:
-            return not obj.resolved
+            # it stands for an object nobody has seen yet: a reference takes
+            # it on trust, a data type (unless any object will do) does not
+            return not _isinstance(_type, EDataType) \
+                or getattr(_type, 'eType', None) is object
         elif _isinstance(obj, _type):
             return True
         # EClassifier (the metaclass level) also takes the Python classes of
